@@ -50,4 +50,31 @@ theorem processFactory_reported {cfg : Cfg} {env : Env} {r : Response} {o : Repo
   subst ho
   exact ⟨cf, p, hl, hv, rfl, rfl, rfl, rfl, rfl⟩
 
+/-- The successful path of `processRespFactory` (`response_factory(...)` + `verify()`), taken apart. -/
+theorem processRespFactory_identity_inv {cfg : Cfg} {env : Env} {r : Response} {o : Reported}
+    (h : processRespFactory cfg env r = .identity o) :
+    ∃ p,
+      loadsStatus r = .ok () ∧
+      verify cfg env cfg.wantAssert {} r = .ok (some p) ∧
+      ∃ a rest s srest, p.used = a :: rest ∧ a.authn = s :: srest ∧
+        o = { nameId := p.st.nameId, issuer := pyStrip (r.issuer.getD ""), cameFrom := p.st.cameFrom,
+              notOnOrAfter := if p.st.sessionNooa > 0 then p.st.sessionNooa else p.st.notOnOrAfter,
+              sessionIndex := s.sessionIndex, cached := false } := by
+  unfold processRespFactory at h
+  split at h
+  · cases h
+  next u hl =>
+    split at h
+    · cases h
+    · cases h
+    next p hv =>
+      split at h
+      · cases h
+      next a rest hused =>
+        split at h
+        next s srest hauthn =>
+          cases h
+          exact ⟨p, hl, hv, a, rest, s, srest, hused, hauthn, rfl⟩
+        · cases h
+
 end Sp
